@@ -270,9 +270,42 @@ pub(super) fn read_artifact_range(
         .map_err(|err| format!("read artifact failed: {err}"))?;
     buf.truncate(read_bytes);
 
+    // Do not end a page inside a multi-byte character while more data follows: the next page
+    // (offset += bytes) then starts on the character boundary and the pages concatenate exactly.
+    if (offset_bytes + read_bytes as u64) < total_bytes {
+        let cut = incomplete_utf8_tail(&buf);
+        if cut > 0 && cut < buf.len() {
+            buf.truncate(buf.len() - cut);
+        }
+    }
+
     let (content, utf8_truncated, used_bytes) = truncate_utf8(&buf, max_bytes);
     let truncated = utf8_truncated || (offset_bytes + read_bytes as u64) < total_bytes;
     Ok((content, used_bytes, total_bytes, truncated))
+}
+
+/// Length of an incomplete (cut) UTF-8 sequence at the end of `bytes`, 0 if there is none.
+pub(super) fn incomplete_utf8_tail(bytes: &[u8]) -> usize {
+    let n = bytes.len();
+    let mut i = n;
+    while i > 0 && n - i < 3 && (bytes[i - 1] & 0xC0) == 0x80 {
+        i -= 1;
+    }
+    if i == 0 {
+        return 0;
+    }
+    let need = match bytes[i - 1] {
+        0xC0..=0xDF => 2,
+        0xE0..=0xEF => 3,
+        0xF0..=0xFF => 4,
+        _ => return 0,
+    };
+    let have = n - (i - 1);
+    if have < need {
+        have
+    } else {
+        0
+    }
 }
 
 pub(super) fn is_lower_hex_64(value: &str) -> bool {
